@@ -21,7 +21,8 @@ def run_cases(ctx, which="c01"):
     quick = ctx.tier == "quick"
     jobs = []
     for i in range(900 if quick else 40000):
-        jobs.append((core.gen_program(rng), core.gen_rows(rng), f"c01_{i}.csv"))
+        prog = core.gen_program(rng)
+        jobs.append((prog, core.gen_rows(rng, echo=prog["textonly"]), f"c01_{i}.csv"))
     res = pmap(ctx, core.impl, jobs, chunksize=16)
     lits = [core.case_lit(j, o) for j, o in zip(jobs, res)]
     pred = "c01_lines" if which == "c01" else "c03_state"
